@@ -112,3 +112,39 @@ func VerifC06_Self(cs int) {
 	VsAssert("self-equal", got == DateRangeComparisonEqual)
 	VsAssert("self-isequal", got.IsEqual())
 }
+
+// VerifC06_Mixed: ranges whose two ends have different granularity (a year and a month of it, a month
+// and a day of it, a day and its month) compared with a day range and with themselves: never invalid,
+// the documented relation of the day intervals, exactly one simplified verdict, the converse. Years and
+// months are fixed and only the days are symbolic, so that comparisons of fractional years stay cheap.
+// cs%4: the shape of the first range.
+func VerifC06_Mixed(cs int) {
+	d1, d2, d3 := VsInt("d1", 1, 28), VsInt("d2", 1, 28), VsInt("d3", 1, 28)
+	var x DateRange
+	var a, b int
+	switch cs % 4 {
+	case 0: // Bet. 1943 and Mar 1943
+		x = NewDateRange(Date{Year: 1943}, Date{Month: 3, Year: 1943})
+		a, b = VDayNo(1943, 1, 1), VDayNo(1943, 3, 31)
+	case 1: // Bet. d1 Sep 1943 and Sep 1943
+		x = NewDateRange(Date{Day: d1, Month: 9, Year: 1943}, Date{Month: 9, Year: 1943})
+		a, b = VDayNo(1943, 9, d1), VDayNo(1943, 9, 30)
+	case 2: // Bet. Sep 1943 and d1 Sep 1943
+		x = NewDateRange(Date{Month: 9, Year: 1943}, Date{Day: d1, Month: 9, Year: 1943})
+		a, b = VDayNo(1943, 9, 1), VDayNo(1943, 9, d1)
+	default: // Bet. 1943 and d1 Feb 1943
+		x = NewDateRange(Date{Year: 1943}, Date{Day: d1, Month: 2, Year: 1943})
+		a, b = VDayNo(1943, 1, 1), VDayNo(1943, 2, d1)
+	}
+	y := NewDateRange(Date{Day: d2, Month: 3, Year: 1943}, Date{Day: d3, Month: 9, Year: 1943})
+	c, d := VDayNo(1943, 3, d2), VDayNo(1943, 9, d3)
+	got, rev, self := x.Compare(y), y.Compare(x), x.Compare(x)
+	VsObserve(int(got))
+	VsReach("mixed-granularity-compared")
+	VsAssert("mixed-range-never-invalid", VsAll(got != DateRangeComparisonInvalid, rev != DateRangeComparisonInvalid, self != DateRangeComparisonInvalid))
+	VsAssert("mixed-range-equal-to-itself", self == DateRangeComparisonEqual)
+	VsAssert("mixed-range-documented-relation", vRelAllowed(got, a, b, c, d))
+	VsAssert("mixed-range-converse-documented-relation", vRelAllowed(rev, c, d, a, b))
+	n := vB2I(got.IsEqual()) + vB2I(got.IsPartiallyEqual()) + vB2I(got.IsNotEqual())
+	VsAssert("mixed-range-one-simplified-verdict", n == 1)
+}
